@@ -201,13 +201,14 @@ theorem parse_encodeAck (p : Profile) (kind id : Nat) (scd : Bytes) (sk : Ack.Sc
     simpa only [List.append_assoc] using this
   rw [h12]
 
-theorem parseReservedU16_ok (v : Nat) (hv : v < 2 ^ 16) :
-    Ack.parseReservedU16 (toLE 2 0 ++ toLE 2 v) = .ok v := by
+theorem parseReservedU16_ok (v : Nat) (hv : v < 2 ^ 16) (ccd : Ack.AckCcd) (h4 : 4 ≤ ccd.scdLen) :
+    Ack.parseReservedU16 (toLE 2 0 ++ toLE 2 v) ccd = .ok v := by
   have r1 := readLE_at [] (toLE 2 v) 2 0 (by decide)
   have r2 := readLE_at (toLE 2 0) [] 2 v (by omega)
   simp only [List.nil_append, List.length_nil, List.append_nil, toLE_length] at r1 r2
-  simp only [Ack.parseReservedU16, r1, Res.bind_ok, ne_eq, not_true_eq_false, if_false, r2,
-    Res.pure_eq]
+  simp only [Ack.parseReservedU16]
+  rw [if_neg (by omega)]
+  simp only [r1, Res.bind_ok, ne_eq, not_true_eq_false, if_false, r2, Res.pure_eq]
 
 theorem encodeAck_length (status kind id : Nat) (scd : Bytes) :
     (encodeAck status kind id scd).length = 12 + scd.length := by
@@ -216,37 +217,88 @@ theorem encodeAck_length (status kind id : Nat) (scd : Bytes) :
 /-! ## C. One transaction against a conforming device -/
 
 /-- chronological receive-side events of one transaction: `k` pending acks (each followed by
-the sleep it asks for), then the final ack. -/
-def recvEvents (bufLen id ms : Nat) (final : Bytes) : Nat → List Ev
-  | 0 => [.recv bufLen (.ok final)]
-  | k + 1 => .recv bufLen (.ok (pendingAck id ms)) :: .sleep ms :: recvEvents bufLen id ms final k
+the sleep it asks for), then the final ack.  `t` is the transport timeout in force. -/
+def recvEvents (bufLen t id ms : Nat) (final : Bytes) : Nat → List Ev
+  | 0 => [.recv bufLen t (.ok final)]
+  | k + 1 => .recv bufLen t (.ok (pendingAck id ms)) :: .sleep ms ::
+      recvEvents bufLen t id ms final k
+
+/-- receives that fetch (and discard) stale acknowledges of earlier, abandoned commands -/
+def staleEvents (bufLen t : Nat) (stale : List Bytes) : List Ev :=
+  stale.map fun pkt => .recv bufLen t (.ok pkt)
 
 /-- chronological events of one transaction. -/
-def txnEvents (bufLen : Nat) (cmd : Bytes) (id ms : Nat) (final : Bytes) (k : Nat) : List Ev :=
-  .send cmd none :: recvEvents bufLen id ms final k
+def txnEvents (bufLen t : Nat) (cmd : Bytes) (id ms : Nat) (stale : List Bytes) (final : Bytes)
+    (k : Nat) : List Ev :=
+  .send cmd t none :: (staleEvents bufLen t stale ++ recvEvents bufLen t id ms final k)
+
+/-- Stale packets the device may still have queued: well-formed acknowledges carrying a
+request id other than `id` that fit a buffer of `bufLen` bytes. -/
+def StaleOk (p : Profile) (id bufLen : Nat) (stale : List Bytes) : Prop :=
+  ∀ pkt ∈ stale, pkt.length ≤ bufLen ∧
+    ∃ ack, Ack.AckPacket.parse p pkt = .ok ack ∧ ack.ccd.requestId ≠ id
 
 section Txn
 variable {σ M : Type} [MemLike M] {dev : Dev σ} {view : σ → View M} {lim : Limits}
   {plan : Nat → Nat} {ms : Nat}
+
+/-- stale acknowledges are fetched and discarded, one retry each -/
+theorem recvLoop_skip {α : Type} (hc : Conforming dev view lim plan ms) (p : Profile)
+    (scdAs : Ack.AckPacket → Ack.R α) (ackKind : Ack.ScdKind) (id : Nat) (rest : List Bytes) :
+    ∀ (stale : List Bytes) (retry : Nat) (s : St σ), StaleOk p id s.h.bufLen stale →
+      (view s.d).queue = stale ++ rest →
+      ∃ s', recvLoop dev p scdAs ackKind id (stale.length + retry) s =
+          recvLoop dev p scdAs ackKind id retry s' ∧
+        s'.h = s.h ∧ (view s'.d).mem = (view s.d).mem ∧ (view s'.d).queue = rest ∧
+        (view s'.d).txn = (view s.d).txn ∧
+        s'.logRev = (staleEvents s.h.bufLen s.h.cfg.timeoutMs stale).reverse ++ s.logRev := by
+  intro stale
+  induction stale with
+  | nil =>
+    intro retry s _ hq
+    exact ⟨s, by simp, rfl, rfl, by simpa using hq, rfl, by simp [staleEvents]⟩
+  | cons pkt stale ih =>
+    intro retry s hst hq
+    obtain ⟨hlen, ack, hparse, hne⟩ := hst pkt (List.mem_cons_self ..)
+    simp only [List.cons_append] at hq
+    obtain ⟨h2, hm, hq', ht⟩ := hc.recv_next s.d s.h.bufLen _ _ hq hlen
+    rcases hrecv : dev.recv s.d s.h.bufLen with ⟨d, res⟩
+    rw [hrecv] at h2 hm hq' ht
+    simp only at h2 hm hq' ht
+    subst h2
+    obtain ⟨s', hs', hh, hmem, hqq, htx, hlog⟩ :=
+      ih retry ((({ s with d := d } : St σ)).push (.recv s.h.bufLen s.h.cfg.timeoutMs (.ok pkt)))
+        (fun x hx => hst x (List.mem_cons_of_mem _ hx)) (by simpa [St.push] using hq')
+    refine ⟨s', ?_, by simpa [St.push] using hh, by simpa [St.push, hm] using hmem, hqq,
+      by simpa [St.push, ht] using htx, ?_⟩
+    · have : (pkt :: stale).length + retry = (stale.length + retry) + 1 := by
+        simp only [List.length_cons]; omega
+      rw [this, recvLoop]
+      simp only [hrecv, St.push, hparse]
+      rw [if_neg (by omega)]
+      simp only [ne_eq, hne, not_false_eq_true, if_true]
+      simpa only [St.push] using hs'
+    · simp only [St.push] at hlog
+      simp [hlog, staleEvents]
 
 theorem recvLoop_answer {α : Type} (hc : Conforming dev view lim plan ms) (p : Profile)
     (scdAs : Ack.AckPacket → Ack.R α) (ackKind : Ack.ScdKind) (kindId id : Nat) (scd : Bytes)
     (v : α) (hk : kindOfId kindId = some ackKind) (hnp : ackKind ≠ .pending)
     (hid : id < 2 ^ 16) (hl : scd.length < 2 ^ 16) (hms : ms < 2 ^ 16)
     (hv : scdAs ⟨⟨⟨0, .genCp .success⟩, ackKind, id, scd.length⟩, 12, scd⟩ = .ok v) :
-    ∀ (k retry : Nat) (s : St σ), k < retry → s.h.nextReqId = id → 16 ≤ s.h.bufLen →
+    ∀ (k retry : Nat) (s : St σ), k < retry → 16 ≤ s.h.bufLen →
       12 + scd.length ≤ s.h.bufLen →
       (view s.d).queue = answer k id ms (encodeAck STATUS_SUCCESS kindId id scd) →
-      ∃ s', recvLoop dev p scdAs ackKind retry s = (s', .ok v) ∧
-        s'.h = { s.h with nextReqId := (id + 1) % 2 ^ 16 } ∧
+      ∃ s', recvLoop dev p scdAs ackKind id retry s = (s', .ok v) ∧
+        s'.h = s.h ∧
         (view s'.d).mem = (view s.d).mem ∧ (view s'.d).queue = [] ∧
         (view s'.d).txn = (view s.d).txn ∧
-        s'.logRev = (recvEvents s.h.bufLen id ms (encodeAck STATUS_SUCCESS kindId id scd) k).reverse
-          ++ s.logRev := by
+        s'.logRev = (recvEvents s.h.bufLen s.h.cfg.timeoutMs id ms
+          (encodeAck STATUS_SUCCESS kindId id scd) k).reverse ++ s.logRev := by
   intro k
   induction k with
   | zero =>
-    intro retry s hlt hsid hb16 hbl hq
+    intro retry s hlt hb16 hbl hq
     obtain ⟨r, rfl⟩ : ∃ r, retry = r + 1 := ⟨retry - 1, by omega⟩
     simp only [answer, List.replicate_zero, List.nil_append] at hq
     obtain ⟨h2, hm, hq', ht⟩ := hc.recv_next s.d s.h.bufLen _ [] hq
@@ -256,15 +308,15 @@ theorem recvLoop_answer {α : Type} (hc : Conforming dev view lim plan ms) (p : 
     simp only at h2 hm hq' ht
     subst h2
     have hparse := parse_encodeAck p kindId id scd ackKind hk hid hl
-    refine ⟨⟨{ s.h with nextReqId := (id + 1) % 2 ^ 16 }, d,
-      .recv s.h.bufLen (.ok (encodeAck STATUS_SUCCESS kindId id scd)) :: s.logRev⟩, ?_, ?_⟩
-    · simp only [recvLoop, hrecv, St.push, encodeAck_length, hparse, verifyAck, hsid]
+    refine ⟨⟨s.h, d, .recv s.h.bufLen s.h.cfg.timeoutMs
+      (.ok (encodeAck STATUS_SUCCESS kindId id scd)) :: s.logRev⟩, ?_, ?_⟩
+    · simp only [recvLoop, hrecv, St.push, encodeAck_length, hparse, verifyAck]
       rw [if_neg (by omega)]
       simp only [ne_eq, not_true_eq_false, if_false, if_neg hnp, hv]
     · refine ⟨rfl, hm, hq', ht, ?_⟩
       simp [recvEvents]
   | succ k ih =>
-    intro retry s hlt hsid hb16 hbl hq
+    intro retry s hlt hb16 hbl hq
     obtain ⟨r, rfl⟩ : ∃ r, retry = r + 1 := ⟨retry - 1, by omega⟩
     simp only [answer, List.replicate_succ, List.cons_append] at hq
     obtain ⟨h2, hm, hq', ht⟩ := hc.recv_next s.d s.h.bufLen _ _ hq
@@ -275,15 +327,16 @@ theorem recvLoop_answer {α : Type} (hc : Conforming dev view lim plan ms) (p : 
     subst h2
     have hparse := parse_encodeAck p ACK_PENDING id (toLE 2 0 ++ toLE 2 ms) .pending (by decide) hid
       (by simp)
-    have hpend := parseReservedU16_ok ms hms
     obtain ⟨s', hs', hh, hmem, hqq, htx, hlog⟩ :=
-      ih r (((({ s with d := d } : St σ)).push (.recv s.h.bufLen (.ok (pendingAck id ms)))).push (.sleep ms))
-        (by omega) hsid hb16 hbl (by simpa [St.push, answer] using hq')
+      ih r (((({ s with d := d } : St σ)).push
+          (.recv s.h.bufLen s.h.cfg.timeoutMs (.ok (pendingAck id ms)))).push (.sleep ms))
+        (by omega) hb16 hbl (by simpa [St.push, answer] using hq')
     refine ⟨s', ?_, ?_⟩
-    · simp only [recvLoop, hrecv, St.push, pendingAck, encodeAck_length, hparse, verifyAck, hsid,
+    · simp only [recvLoop, hrecv, St.push, pendingAck, encodeAck_length, hparse, verifyAck,
         List.length_append, toLE_length]
       rw [if_neg (by omega)]
-      simp only [ne_eq, not_true_eq_false, if_false, if_true, Ack.Pending.parse, hpend]
+      simp only [ne_eq, not_true_eq_false, if_false, if_true, Ack.Pending.parse]
+      rw [parseReservedU16_ok ms hms _ (by simp)]
       simpa only [St.push, pendingAck] using hs'
     · refine ⟨by simpa [St.push] using hh, by simpa [St.push, hm] using hmem, hqq,
         by simpa [St.push, ht] using htx, ?_⟩
@@ -303,26 +356,29 @@ theorem maximumAckLen_ge (c : Cmd.Cmd) : 16 ≤ c.maximumAckLen := by
   simp only [Cmd.Cmd.maximumAckLen, Cmd.ACK_HEADER_LENGTH, Cmd.MINIMUM_ACK_SCD_LENGTH]
   omega
 
-/-- A transaction for a constructible command whose (conforming) answer is known. -/
+/-- A transaction for a constructible command whose (conforming) answer is known; the device
+may still have `stale` acknowledges of earlier commands queued. -/
 theorem sendCmd_conforming {α : Type} (hc : Conforming dev view lim plan ms) (p : Profile)
     (scdAs : Ack.AckPacket → Ack.R α) (s : St σ) (c : Cmd.Cmd) (hcons : C09.Constructible p c)
     (hid : s.h.nextReqId < 2 ^ 16) (hms : ms < 2 ^ 16) (kindId : Nat) (scd : Bytes) (v : α)
-    (mem' : M) (k : Nat)
+    (mem' : M) (k : Nat) (stale : List Bytes)
     (hk : kindOfId kindId = some (ackKindOf c)) (hnp : ackKindOf c ≠ .pending)
     (hl : scd.length < 2 ^ 16) (hfit : 12 + scd.length ≤ c.maximumAckLen)
+    (hmax : c.cmdLen ≤ s.h.cfg.maxCmd)
     (hv : scdAs ⟨⟨⟨0, .genCp .success⟩, ackKindOf c, s.h.nextReqId, scd.length⟩, 12, scd⟩ = .ok v)
+    (hstale : StaleOk p s.h.nextReqId s.h.bufLen stale)
     (hsend : (dev.send s.d (c.serialize s.h.nextReqId)).2 = none ∧
       (view (dev.send s.d (c.serialize s.h.nextReqId)).1).mem = mem' ∧
-      (view (dev.send s.d (c.serialize s.h.nextReqId)).1).queue =
+      (view (dev.send s.d (c.serialize s.h.nextReqId)).1).queue = stale ++
         answer k s.h.nextReqId ms (encodeAck STATUS_SUCCESS kindId s.h.nextReqId scd) ∧
       (view (dev.send s.d (c.serialize s.h.nextReqId)).1).txn = (view s.d).txn + 1)
-    (hplan : k < s.h.cfg.retry) :
+    (hplan : stale.length + k < s.h.cfg.retry) :
     ∃ s', sendCmd dev p scdAs s c = (s', .ok v) ∧
       s'.h = { s.h with nextReqId := (s.h.nextReqId + 1) % 2 ^ 16,
                         bufLen := max s.h.bufLen (max c.cmdLen c.maximumAckLen) } ∧
       (view s'.d).mem = mem' ∧ (view s'.d).queue = [] ∧ (view s'.d).txn = (view s.d).txn + 1 ∧
-      s'.logRev = (txnEvents (max s.h.bufLen (max c.cmdLen c.maximumAckLen))
-        (c.serialize s.h.nextReqId) s.h.nextReqId ms
+      s'.logRev = (txnEvents (max s.h.bufLen (max c.cmdLen c.maximumAckLen)) s.h.cfg.timeoutMs
+        (c.serialize s.h.nextReqId) s.h.nextReqId ms stale
         (encodeAck STATUS_SUCCESS kindId s.h.nextReqId scd) k).reverse ++ s.logRev := by
   obtain ⟨hs2, hsm, hsq, hst⟩ := hsend
   have hlen := (C09.len_agree p c s.h.nextReqId hcons).1
@@ -333,34 +389,47 @@ theorem sendCmd_conforming {α : Type} (hc : Conforming dev view lim plan ms) (p
   rw [hsd] at hs2 hsm hsq hst
   simp only at hs2 hsm hsq hst
   subst hs2
+  -- the state in which the receive loop starts
+  let h0 : Handle := ⟨(s.h.nextReqId + 1) % 2 ^ 16, s.h.cfg,
+    max s.h.bufLen (max c.cmdLen c.maximumAckLen), s.h.opened, s.h.abrm⟩
+  let s0 : St σ := ⟨h0, d, .send (c.serialize s.h.nextReqId) s.h.cfg.timeoutMs none :: s.logRev⟩
+  obtain ⟨s1, hs1, hh1, hm1, hq1, ht1, hl1⟩ :=
+    recvLoop_skip hc p scdAs (ackKindOf c) s.h.nextReqId
+      (answer k s.h.nextReqId ms (encodeAck STATUS_SUCCESS kindId s.h.nextReqId scd)) stale
+      (s.h.cfg.retry - stale.length) s0
+      (fun pkt hp => ⟨by have := (hstale pkt hp).1; simp only [s0, h0]; omega, (hstale pkt hp).2⟩)
+      hsq
   obtain ⟨s', hs', hh, hmem, hqq, htx, hlog⟩ :=
     recvLoop_answer hc p scdAs (ackKindOf c) kindId s.h.nextReqId scd v hk hnp hid hl hms hv k
-      s.h.cfg.retry
-      ((({ s with h := { s.h with bufLen := max s.h.bufLen (max c.cmdLen c.maximumAckLen) }, d := d } :
-        St σ)).push (.send (c.serialize s.h.nextReqId) none))
-      hplan rfl (by simp only [St.push]; omega) (by simp only [St.push]; omega)
-      (by simpa [St.push] using hsq)
+      (s.h.cfg.retry - stale.length) s1 (by omega) (by rw [hh1]; simp only [s0, h0]; omega)
+      (by rw [hh1]; simp only [s0, h0]; omega) hq1
   refine ⟨s', ?_, ?_⟩
-  · simp only [sendCmd, bufGrow_eq, hsink, hlen, ne_eq, not_true_eq_false, if_false, hsd]
-    simpa only [St.push] using hs'
-  · refine ⟨by simpa [St.push] using hh, by simpa [St.push] using hmem.trans hsm, hqq,
-      by simpa [St.push] using htx.trans hst, ?_⟩
-    simp only [St.push] at hlog
-    simp [hlog, txnEvents]
+  · have hre : stale.length + (s.h.cfg.retry - stale.length) = s.h.cfg.retry := by omega
+    rw [hre] at hs1
+    simp only [sendCmd, if_neg (Nat.not_lt.mpr hmax), hsink, hlen, ne_eq,
+      not_true_eq_false, if_false, hsd, St.push]
+    simp only [s0, h0] at hs1
+    rw [hs1, hs']
+  · refine ⟨by rw [hh, hh1], by rw [hmem, hm1]; exact hsm, hqq, by rw [htx, ht1]; exact hst, ?_⟩
+    rw [hlog, hl1, hh1]
+    simp [txnEvents, s0, h0]
 
 /-- ReadMem transaction against a conforming device. -/
 theorem sendCmd_read (hc : Conforming dev view lim plan ms) (p : Profile) (s : St σ) (a n : Nat)
+    (stale : List Bytes)
     (ha : a < 2 ^ 64) (hn : n < 2 ^ 16) (hid : s.h.nextReqId < 2 ^ 16) (hms : ms < 2 ^ 16)
+    (hcfg : 24 ≤ s.h.cfg.maxCmd)
     (hcmd : 24 ≤ lim.maxCmd) (hack : 12 + n ≤ lim.maxAck) (hsp : a + n ≤ 2 ^ 64)
-    (hplan : plan (view s.d).txn < s.h.cfg.retry) :
+    (hq : (view s.d).queue = stale) (hstale : StaleOk p s.h.nextReqId s.h.bufLen stale)
+    (hplan : stale.length + plan (view s.d).txn < s.h.cfg.retry) :
     ∃ s', sendCmd dev p (fun ack => Ack.ReadMem.parse ack.rawScd ack.ccd) s (.readMem ⟨a, n⟩) =
         (s', .ok (readRange (view s.d).mem a n)) ∧
       s'.h = { s.h with nextReqId := (s.h.nextReqId + 1) % 2 ^ 16,
                         bufLen := max s.h.bufLen (max 24 (12 + max n 4)) } ∧
       (view s'.d).mem = (view s.d).mem ∧ (view s'.d).queue = [] ∧
       (view s'.d).txn = (view s.d).txn + 1 ∧
-      s'.logRev = (txnEvents (max s.h.bufLen (max 24 (12 + max n 4)))
-        ((Cmd.Cmd.readMem ⟨a, n⟩).serialize s.h.nextReqId) s.h.nextReqId ms
+      s'.logRev = (txnEvents (max s.h.bufLen (max 24 (12 + max n 4))) s.h.cfg.timeoutMs
+        ((Cmd.Cmd.readMem ⟨a, n⟩).serialize s.h.nextReqId) s.h.nextReqId ms stale
         (readAck s.h.nextReqId (readRange (view s.d).mem a n)) (plan (view s.d).txn)).reverse
         ++ s.logRev := by
   have hcons : C09.Constructible p (.readMem ⟨a, n⟩) := .readMem _ ⟨ha, hn⟩
@@ -369,33 +438,38 @@ theorem sendCmd_read (hc : Conforming dev view lim plan ms) (p : Profile) (s : S
   simp only [C09.fields, C09.body, Spec.GenCP.scdLenOf] at hdec
   have hsend := hc.send_read s.d _ _ _ _ _ hdec
     (by rw [hlen]; simp only [Cmd.Cmd.cmdLen, Cmd.Cmd.scdLen, Cmd.CCD_LEN]; omega) hack hsp
+  rw [hq] at hsend
   have := sendCmd_conforming hc p (fun ack => Ack.ReadMem.parse ack.rawScd ack.ccd) s
     (.readMem ⟨a, n⟩) hcons hid hms ACK_READ_MEM (readRange (view s.d).mem a n)
-    (readRange (view s.d).mem a n) (view s.d).mem (plan (view s.d).txn) rfl
+    (readRange (view s.d).mem a n) (view s.d).mem (plan (view s.d).txn) stale rfl
     (by simp [ackKindOf]) (by simpa using hn)
     (by simp only [readRange_length, Cmd.Cmd.maximumAckLen, Cmd.Cmd.ackScdLen,
           Cmd.ACK_HEADER_LENGTH, Cmd.MINIMUM_ACK_SCD_LENGTH]; omega)
+    (by simp only [Cmd.Cmd.cmdLen, Cmd.Cmd.scdLen, Cmd.CCD_LEN]; omega)
     (by simp only [Ack.ReadMem.parse, Ack.parseDataScd, Nat.lt_irrefl, if_false]
         rw [List.take_of_length_le (Nat.le_refl _)])
-    (by simpa only [readAck] using hsend) hplan
+    hstale (by simpa only [readAck] using hsend) hplan
   simpa only [Cmd.Cmd.cmdLen, Cmd.Cmd.scdLen, Cmd.CCD_LEN, Cmd.Cmd.maximumAckLen,
     Cmd.Cmd.ackScdLen, Cmd.ACK_HEADER_LENGTH, Cmd.MINIMUM_ACK_SCD_LENGTH, readAck,
     Nat.reduceAdd] using this
 
 /-- WriteMem transaction against a conforming device. -/
 theorem sendCmd_write (hc : Conforming dev view lim plan ms) (p : Profile) (s : St σ)
-    (w : Cmd.WriteMem) (hw : C09.WriteMem.Built w) (hid : s.h.nextReqId < 2 ^ 16)
-    (hms : ms < 2 ^ 16) (hcmd : 20 + w.data.length ≤ lim.maxCmd) (hack : 16 ≤ lim.maxAck)
+    (w : Cmd.WriteMem) (stale : List Bytes) (hw : C09.WriteMem.Built w)
+    (hid : s.h.nextReqId < 2 ^ 16)
+    (hms : ms < 2 ^ 16) (hcfg : 20 + w.data.length ≤ s.h.cfg.maxCmd)
+    (hcmd : 20 + w.data.length ≤ lim.maxCmd) (hack : 16 ≤ lim.maxAck)
     (hsp : w.address + w.data.length ≤ 2 ^ 64)
-    (hplan : plan (view s.d).txn < s.h.cfg.retry) :
+    (hq : (view s.d).queue = stale) (hstale : StaleOk p s.h.nextReqId s.h.bufLen stale)
+    (hplan : stale.length + plan (view s.d).txn < s.h.cfg.retry) :
     ∃ s', sendCmd dev p (fun ack => Ack.WriteMem.parse ack.rawScd ack.ccd) s (.writeMem w) =
         (s', .ok w.data.length) ∧
       s'.h = { s.h with nextReqId := (s.h.nextReqId + 1) % 2 ^ 16,
                         bufLen := max s.h.bufLen (max (20 + w.data.length) 16) } ∧
       (view s'.d).mem = writeRange (view s.d).mem w.address w.data ∧ (view s'.d).queue = [] ∧
       (view s'.d).txn = (view s.d).txn + 1 ∧
-      s'.logRev = (txnEvents (max s.h.bufLen (max (20 + w.data.length) 16))
-        ((Cmd.Cmd.writeMem w).serialize s.h.nextReqId) s.h.nextReqId ms
+      s'.logRev = (txnEvents (max s.h.bufLen (max (20 + w.data.length) 16)) s.h.cfg.timeoutMs
+        ((Cmd.Cmd.writeMem w).serialize s.h.nextReqId) s.h.nextReqId ms stale
         (writeAck s.h.nextReqId w.data.length) (plan (view s.d).txn)).reverse ++ s.logRev := by
   have hcons : C09.Constructible p (.writeMem w) := .writeMem _ hw
   have hdec := C09.decode_serialize p (.writeMem w) s.h.nextReqId hcons hid
@@ -416,16 +490,18 @@ theorem sendCmd_write (hc : Conforming dev view lim plan ms) (p : Profile) (s : 
   have hcl : (Cmd.Cmd.writeMem w).cmdLen = 20 + w.data.length := by
     simp only [Cmd.Cmd.cmdLen, Cmd.Cmd.scdLen, Cmd.CCD_LEN, hwl.1]; omega
   have hsend := hc.send_write s.d _ _ _ _ _ hdec (by rw [hlen, hcl]; exact hcmd) hack hsp
+  rw [hq] at hsend
   have hu := hwl.2
   simp only [U16_MAX] at hu
   have := sendCmd_conforming hc p (fun ack => Ack.WriteMem.parse ack.rawScd ack.ccd) s
     (.writeMem w) hcons hid hms ACK_WRITE_MEM (toLE 2 0 ++ toLE 2 w.data.length)
-    w.data.length (writeRange (view s.d).mem w.address w.data) (plan (view s.d).txn) rfl
+    w.data.length (writeRange (view s.d).mem w.address w.data) (plan (view s.d).txn) stale rfl
     (by simp [ackKindOf]) (by simp)
     (by simp only [List.length_append, toLE_length, Cmd.Cmd.maximumAckLen, Cmd.Cmd.ackScdLen,
           Cmd.ACK_HEADER_LENGTH, Cmd.MINIMUM_ACK_SCD_LENGTH]; omega)
-    (by simp only [Ack.WriteMem.parse]; exact parseReservedU16_ok _ (by omega))
-    (by simpa only [writeAck] using hsend) hplan
+    (by rw [hcl]; exact hcfg)
+    (by simp only [Ack.WriteMem.parse]; exact parseReservedU16_ok _ (by omega) _ (by simp))
+    hstale (by simpa only [writeAck] using hsend) hplan
   have hma : (Cmd.Cmd.writeMem w).maximumAckLen = 16 := by
     simp [Cmd.Cmd.maximumAckLen, Cmd.Cmd.ackScdLen, Cmd.ACK_HEADER_LENGTH,
       Cmd.MINIMUM_ACK_SCD_LENGTH]
